@@ -6,6 +6,10 @@ CHECKS = {
    text="Generated trees x paths x lookups x resolver flags x kernel configs, every library result compared with the harness's own raw openat2(RESOLVE_IN_ROOT|RESOLVE_NO_MAGICLINKS) on the same unmodified tree, plus containment in the tree snapshot and a syscall-count bound (loops). Search, not proof: absence is never established.",
    note="Trusts the running kernel's openat2 as reference semantics; openat2 absence is emulated by a seccomp ENOSYS filter on the library thread; tmpfs only; >40 link traversals outside the compared domain.",
    technique="property-based testing (proptest) with a differential kernel oracle, fork-per-case, seccomp kcfg"),
+ "C04": dict(level="exploration", ref="DESIGN.md §3 C04",
+   text="Generated tree x sequence of 1-6 Root operations (all kinds, paths incl. '', NUL, '..', trailing slashes) run twice in fresh processes, with openat2 available and with openat2 answering ENOSYS; step-by-step differential comparison of Ok/Err, error kind, errno, returned object, type, F_GETFL status bits, FD_CLOEXEC, link bodies, and of the final path-projected tree. Search, not proof.",
+   note="Backend selection by seccomp ENOSYS on the library thread (verified per case by a probe); differences must reproduce in 4 runs because openat2 fails spuriously under system-wide mount/rename activity; >40 traversals and flag sets the kernel rejects are outside the domain; tmpfs only.",
+   technique="property-based differential testing (proptest) across two seccomp-selected kernel configurations"),
 }
 NOT_YET = {}
 ALL = ["C%02d" % i for i in range(1, 19)]
